@@ -120,14 +120,22 @@ def insertPending (now h : Nat) (tbf : List Entry) (new : List (Nat × Nat)) : L
   new.foldl (fun acc p =>
     if hasKTH acc p.1 p.2 h then acc else acc ++ [⟨p.1, p.2, h, now + pendingTimeout⟩]) tbf
 
+/-- the condition of the single-key fast path of `add_keys`, with `single` = the fast path needs a single-key
+ADVERTISEMENT (`total_incoming_keys == 1 && new_incoming_keys.len() == 1`; otherwise `new_incoming_keys.len() == 1`
+alone): the key that takes it, if any -/
+def fastKeyWith (single : Bool) (incoming new : List (Nat × Nat)) : Option (Nat × Nat) :=
+  match new with
+  | [p] => if single && incoming.length != 1 then none else some p
+  | _ => none
+
 /-- the part of `add_keys` before the final `next_keys_to_fetch`; returns the fast-path result -/
-def addCore (dist : Nat → Nat) (s : State) (h : Nat) (incoming locals : List (Nat × Nat)) :
+def addCoreWith (single : Bool) (dist : Nat → Nat) (s : State) (h : Nat) (incoming locals : List (Nat × Nat)) :
     State × List Entry :=
   let new := incoming.filter (admits dist s locals h)
   let tbf1 := s.tbf.filter (fun e => !heldSame locals e)
   let ogf1 := s.ogf.filter (fun e => !heldSame locals e)
-  match new with
-  | [p] =>
+  match fastKeyWith single incoming new with
+  | some p =>
     -- single new key: fetched at once unless that (key, type) is in flight; nothing is queued
     let tbf2 := tbf1.filter (alive s.now)
     let e : Entry := ⟨p.1, p.2, h, s.now + fetchTimeout⟩
@@ -136,18 +144,22 @@ def addCore (dist : Nat → Nat) (s : State) (h : Nat) (incoming locals : List (
       else ({ s with tbf := tbf2, ogf := (ogf1.filter (fun o => !sameKT p.1 p.2 o)) ++ [e] }, [e])
     else
       ({ s with tbf := tbf2, ogf := ogf1 ++ [e] }, [e])
-  | _ =>
+  | none =>
     let tbf2 := tbf1.filter (alive s.now)
     let new3 := match s.range with
       | some r => new.filter (fun p => rangeOk (dist p.1) r)
       | none => new
     ({ s with tbf := insertPending s.now h tbf2 new3, ogf := ogf1 }, [])
 
-/-- `add_keys`; `choice` is the whole returned list, the model checks that it starts with the fast-path
-result and that the rest is a legal batch -/
-def addKeys (dist : Nat → Nat) (s : State) (h : Nat) (incoming locals : List (Nat × Nat))
-    (choice : List Entry) : State × Out :=
-  let (s1, fast) := addCore dist s h incoming locals
+def fastKey (incoming new : List (Nat × Nat)) : Option (Nat × Nat) := fastKeyWith fastPathNeedsSingleAdvert incoming new
+
+def addCore (dist : Nat → Nat) (s : State) (h : Nat) (incoming locals : List (Nat × Nat)) : State × List Entry :=
+  addCoreWith fastPathNeedsSingleAdvert dist s h incoming locals
+
+/-- `add_keys` after its first part `r`; `choice` is the whole returned list, the model checks that it starts with the
+fast-path result and that the rest is a legal batch -/
+def addKeysFrom (dist : Nat → Nat) (r : State × List Entry) (choice : List Entry) : State × Out :=
+  let (s1, fast) := r
   match fast with
   | [] =>
     nextKeys dist s1 choice
@@ -163,6 +175,16 @@ def addKeys (dist : Nat → Nat) (s : State) (h : Nat) (incoming locals : List (
     | [] =>
       let (s2, o) := nextKeys dist s1 []
       (s2, { o with ret := fast ++ o.ret, illegal := true })
+
+/-- `add_keys` -/
+def addKeys (dist : Nat → Nat) (s : State) (h : Nat) (incoming locals : List (Nat × Nat))
+    (choice : List Entry) : State × Out :=
+  addKeysFrom dist (addCore dist s h incoming locals) choice
+
+/-- `add_keys` with the fast-path condition given explicitly (for statements about the other shape of the source) -/
+def addKeysWith (single : Bool) (dist : Nat → Nat) (s : State) (h : Nat) (incoming locals : List (Nat × Nat))
+    (choice : List Entry) : State × Out :=
+  addKeysFrom dist (addCoreWith single dist s h incoming locals) choice
 
 /-- `set_farthest_on_full(Some(key))` with `d = dist key` (`None` is a no-op) -/
 def setFull (dist : Nat → Nat) (s : State) (d : Nat) : State :=
